@@ -1,15 +1,339 @@
 (* C09 -- ignore rules pick the same files on every run and act only below their directory.
-   Property theorems only (first instalment; the file grows with Walker/Proofs.v). *)
-From Coq Require Import List Bool NArith.
-From XV Require Import Glob.Match Glob.Pattern Glob.Proofs Walker.Model Gen.CommonIgnore.
+   Property theorems only: statement, [exact] of a lemma of Walker/Proofs.v, Walker/Special.v or
+   Glob/Proofs.v, a [Check] pinning the statement, [Example]s showing the hypotheses are met by
+   non-trivial concrete trees (and the _refuted witnesses, by vm_compute with the transliterated
+   fast-glob matcher), [Print Assumptions].
+
+   [fixed_P17 = true] is the code with the locality test in IgnoreRules::check
+   (repo-patches/51-fix-P17-ignore-locality.diff), [fixed_P17 = false] the code without it.
+   Every walker theorem holds for EVERY matcher [gm]; the witnesses use [glob_matches]. *)
+From Coq Require Import List Bool NArith Permutation Lia.
+From XV Require Import Glob.Match Glob.Pattern Glob.Proofs Walker.Model Walker.Proofs Walker.Special Gen.CommonIgnore.
 Import ListNotations.
 Open Scope N_scope.
 
-(* The locality test of the P17 fix: a pattern read from the ignore file of a directory whose
-   (slash-trimmed) name is d <> "" is consulted only for strings "d/..." (after leading slashes). *)
+(* ---- concrete trees for the Examples ------------------------------------------------------------------- *)
+(* a/{foo.tmp,x.txt}  b/{.xvcignore = "foo.tmp", foo.tmp}  c/{foo.tmp} *)
+Definition ex1_ch : list (name * tree) := [
+    ([97] (* a *), Dir (None) [
+      ([102; 111; 111; 46; 116; 109; 112] (* foo.tmp *), File);
+      ([120; 46; 116; 120; 116] (* x.txt *), File)]);
+    ([98] (* b *), Dir (Some [102; 111; 111; 46; 116; 109; 112; 10]) [
+      ([46; 120; 118; 99; 105; 103; 110; 111; 114; 101] (* .xvcignore *), File);
+      ([102; 111; 111; 46; 116; 109; 112] (* foo.tmp *), File)]);
+    ([99] (* c *), Dir (None) [
+      ([102; 111; 111; 46; 116; 109; 112] (* foo.tmp *), File)])].
+(* a1/x/y.txt  a[1]/{.xvcignore = "x/y.txt", x/y.txt} *)
+Definition ex2_ch : list (name * tree) := [
+    ([97; 49] (* a1 *), Dir (None) [
+      ([120] (* x *), Dir (None) [
+        ([121; 46; 116; 120; 116] (* y.txt *), File)])]);
+    ([97; 91; 49; 93] (* a[1] *), Dir (Some [120; 47; 121; 46; 116; 120; 116; 10]) [
+      ([46; 120; 118; 99; 105; 103; 110; 111; 114; 101] (* .xvcignore *), File);
+      ([120] (* x *), Dir (None) [
+        ([121; 46; 116; 120; 116] (* y.txt *), File)])])].
+(* .xvcignore = "!.git" at the root, a/{.git/HEAD, u.txt}, .xvc/config.toml *)
+Definition ex3_ch : list (name * tree) := [
+    ([46; 120; 118; 99; 105; 103; 110; 111; 114; 101] (* .xvcignore *), File);
+    ([97] (* a *), Dir (None) [
+      ([46; 103; 105; 116] (* .git *), Dir (None) [
+        ([72; 69; 65; 68] (* HEAD *), File)]);
+      ([117; 46; 116; 120; 116] (* u.txt *), File)]);
+    ([46; 120; 118; 99] (* .xvc *), Dir (None) [
+      ([99; 111; 110; 102; 105; 103; 46; 116; 111; 109; 108] (* config.toml *), File)])].
+Definition ex3_ign : option bytes := Some [33; 46; 103; 105; 116; 10].
+Definition s_a : bytes := [97].   (* 'a' *)
+Definition s_b : bytes := [98].   (* 'b' *)
+Definition s_c : bytes := [99].   (* 'c' *)
+Definition s_foo : bytes := [102; 111; 111; 46; 116; 109; 112].   (* 'foo.tmp' *)
+Definition s_a1 : bytes := [97; 49].   (* 'a1' *)
+Definition s_a_1_ : bytes := [97; 91; 49; 93].   (* 'a[1]' *)
+Definition s_x : bytes := [120].   (* 'x' *)
+Definition s_y : bytes := [121; 46; 116; 120; 116].   (* 'y.txt' *)
+Definition s_git : bytes := [46; 103; 105; 116].   (* '.git' *)
+Definition s_xvc : bytes := [46; 120; 118; 99].   (* '.xvc' *)
+Definition s_head : bytes := [72; 69; 65; 68].   (* 'HEAD' *)
+Definition l_foo : bytes := [102; 111; 111; 46; 116; 109; 112].   (* 'foo.tmp' *)
+Definition l_xy : bytes := [120; 47; 121; 46; 116; 120; 116].   (* 'x/y.txt' *)
+(* ex1 without the files that the line of b/.xvcignore could reach outside b *)
+Definition ex4_ch : list (name * tree) :=
+  [(s_a, Dir None [([120; 46; 116; 120; 116], File)]);
+   (s_b, Dir (Some [102; 111; 111; 46; 116; 109; 112; 10]) [([46; 120; 118; 99; 105; 103; 110; 111; 114; 101], File); (s_foo, File)]);
+   (s_c, Dir None [])].
+
+(* thread 0 takes every step (queue position k at its first pop), then both threads leave *)
+Definition sched_one (k : nat) : list (nat * nat) := (O, k) :: repeat (O, O) 40 ++ [(1%nat, O)].
+
+(* ---- 0. the regenerated tables are the ones the model is about ----------------------------------------- *)
+Example gen_tables_supported :
+  common_ignore_supported && xvc_dir_supported && xvcignore_filename_supported && max_threads_supported
+  && callers_use_common_ignore = true.
+Proof. reflexivity. Qed.
+Example gen_threads_positive : (1 <= max_threads_parallel_walk)%nat.
+Proof. vm_compute. lia. Qed.
+Example gen_common_rules :
+  map (fun pat => (p_glob pat, p_src pat, p_white pat)) (r_ign (global_rules common_ignore_patterns))
+  = [(c_star :: c_star :: c_slash :: xvc_dir_name, SGlobal, false); (c_star :: c_star :: c_slash :: git_dir_name, SGlobal, false)]
+  /\ r_white (global_rules common_ignore_patterns) = [].
+Proof. exact common_rules_shape. Qed.
+
+(* ---- 1. locality of a pattern ------------------------------------------------------------------------------ *)
+(* A pattern read from the ignore file of directory D (not the root) hits the path string of q only if
+   q is properly below D. *)
+Definition C09_pattern_local (fixed : bool) : Prop :=
+  forall gm pat D ign q,
+    In pat (dir_patterns D ign) -> D <> [] -> forallb good_name D = true -> q <> [] -> forallb good_name q = true ->
+    pat_hits gm fixed (render q) pat = true -> exists r, q = D ++ r /\ r <> [].
+
+Theorem pattern_local : C09_pattern_local true.
+Proof. exact pattern_local_lemma. Qed.
+
+(* without the locality test: "foo.tmp" of b/.xvcignore hits /a/foo.tmp (P17) *)
+Theorem pattern_local_refuted : ~ C09_pattern_local false.
+Proof.
+  intros H.
+  destruct (H glob_matches (pattern_new (SFile s_b) l_foo) [s_b] (Some (l_foo ++ [10])) [s_a; s_foo]) as (r & E & _);
+    [vm_compute; left; reflexivity|discriminate|reflexivity|discriminate|reflexivity|vm_compute; reflexivity|].
+  discriminate.
+Qed.
+
+(* without the locality test even a relative pattern leaks when the directory name has glob
+   metacharacters: "x/y.txt" of a[1]/.xvcignore is the glob /a[1]/**/x/y.txt, which hits /a1/x/y.txt *)
+Theorem metachar_dir_refuted :
+  exists pat, In pat (dir_patterns [s_a_1_] (Some (l_xy ++ [10]))) /\ p_rel pat <> None /\
+              pat_hits glob_matches false (render [s_a1; s_x; s_y]) pat = true /\
+              pat_hits glob_matches true (render [s_a1; s_x; s_y]) pat = false.
+Proof.
+  exists (pattern_new (SFile s_a_1_) l_xy).
+  split; [vm_compute; left; reflexivity|]. split; [vm_compute; discriminate|]. split; vm_compute; reflexivity.
+Qed.
+
+(* the basis of [pattern_local]: the explicit prefix test of the fix, on strings *)
 Theorem applies_only_below pat dir s :
   p_src pat = SFile dir -> trim_slashes dir <> [] -> applies pat s = true ->
   exists rest, trim_start_by is_sep s = trim_slashes dir ++ c_slash :: rest.
 Proof. exact (applies_local pat dir s). Qed.
 
+(* ---- 2. walk_parallel: every schedule, every number of threads ---------------------------------------------- *)
+(* [walk_deterministic gm fixed globals ign ch] (Walker/Proofs.v): for every number of threads n >= 1 and
+   every schedule, if the run reaches a final configuration (all threads have left), its output is a
+   permutation of spec_walk and has no duplicates. *)
+Definition C09_full : Prop :=
+  forall gm fixed globals ign ch, wf_tree (Dir ign ch) = true -> walk_deterministic gm fixed globals ign ch.
+
+Theorem par_walk_deterministic gm globals ign ch :
+  wf_tree (Dir ign ch) = true -> walk_deterministic gm true globals ign ch.
+Proof.
+  exact (fun Hwf => par_walk_deterministic_lemma gm true globals ign ch Hwf (local_of_fixed gm true ign ch Hwf eq_refl)).
+Qed.
+
+(* the code as it is (no locality test): the same holds for every tree outside the known class *)
+Theorem par_walk_deterministic_outside_P17 gm fixed globals ign ch :
+  wf_tree (Dir ign ch) = true -> known_P17 gm (Dir ign ch) = false -> walk_deterministic gm fixed globals ign ch.
+Proof.
+  exact (fun Hwf Hk => par_walk_deterministic_lemma gm fixed globals ign ch Hwf (local_of_not_known gm fixed ign ch Hk)).
+Qed.
+
+(* ... and fails inside it: two schedules of the same tree with different results *)
+Theorem par_walk_nondeterministic_refuted :
+  let c1 := par_walk glob_matches false 2 common_ignore_patterns None ex1_ch (sched_one 0) in
+  let c2 := par_walk glob_matches false 2 common_ignore_patterns None ex1_ch (sched_one 1) in
+  final c1 = true /\ final c2 = true /\ length (c_out c1) <> length (c_out c2) /\
+  length (c_out c2) <> length (spec_walk glob_matches false common_ignore_patterns None ex1_ch).
+Proof. vm_compute. repeat split; discriminate. Qed.
+
+Theorem C09_full_refuted_P17 : ~ C09_full.
+Proof.
+  intros H.
+  destruct (H glob_matches false common_ignore_patterns None ex1_ch eq_refl 2%nat (sched_one 1)) as [Hp _];
+    [repeat constructor|vm_compute; reflexivity|].
+  apply Permutation_length in Hp. vm_compute in Hp. discriminate Hp.
+Qed.
+
+(* ---- 3. walk_serial -------------------------------------------------------------------------------------------- *)
+Theorem serial_eq_spec gm globals ign ch :
+  wf_tree (Dir ign ch) = true ->
+  exists out, serial_walk gm true (S (dir_count (Dir ign ch))) globals ign ch = Some out /\
+              Permutation out (spec_walk gm true globals ign ch) /\ NoDup out.
+Proof.
+  exact (fun Hwf => serial_eq_spec_lemma gm true globals ign ch Hwf (local_of_fixed gm true ign ch Hwf eq_refl)).
+Qed.
+
+Theorem serial_eq_spec_outside_P17 gm fixed globals ign ch :
+  wf_tree (Dir ign ch) = true -> known_P17 gm (Dir ign ch) = false ->
+  exists out, serial_walk gm fixed (S (dir_count (Dir ign ch))) globals ign ch = Some out /\
+              Permutation out (spec_walk gm fixed globals ign ch) /\ NoDup out.
+Proof.
+  exact (fun Hwf Hk => serial_eq_spec_lemma gm fixed globals ign ch Hwf (local_of_not_known gm fixed ign ch Hk)).
+Qed.
+
+Theorem serial_ne_spec_refuted :
+  exists out, serial_walk glob_matches false (S (dir_count (Dir None ex1_ch))) common_ignore_patterns None ex1_ch = Some out /\
+              length out <> length (spec_walk glob_matches false common_ignore_patterns None ex1_ch).
+Proof. eexists. split; [vm_compute; reflexivity|vm_compute; discriminate]. Qed.
+
+(* both walkers report the same set *)
+Theorem serial_eq_parallel gm globals ign ch n sched out :
+  wf_tree (Dir ign ch) = true -> (1 <= n)%nat ->
+  final (par_walk gm true n globals ign ch sched) = true ->
+  serial_walk gm true (S (dir_count (Dir ign ch))) globals ign ch = Some out ->
+  Permutation out (c_out (par_walk gm true n globals ign ch sched)).
+Proof.
+  intros Hwf Hn Hf Hs.
+  destruct (serial_eq_spec_lemma gm true globals ign ch Hwf (local_of_fixed gm true ign ch Hwf eq_refl)) as (out' & E & Hp & _).
+  rewrite Hs in E. injection E as <-.
+  destruct (par_walk_deterministic_lemma gm true globals ign ch Hwf (local_of_fixed gm true ign ch Hwf eq_refl) n sched Hn Hf) as [Hp' _].
+  exact (Permutation_trans Hp (Permutation_sym Hp')).
+Qed.
+
+(* ---- 4. an ignored directory hides everything beneath it ------------------------------------------------------ *)
+(* every reported path, and every directory on the way to it, is "not ignored" under the rules of its own
+   ancestors (RB q): nothing below a directory that those rules ignore is ever reported *)
+Theorem ignored_dir_hides_subtree gm fixed globals ign ch x p n r :
+  wf_tree (Dir ign ch) = true -> In x (spec_walk gm fixed globals ign ch) -> x = p ++ n :: r ->
+  is_ignore (check gm fixed (RB globals ign ch (p ++ [n])) (p ++ [n])) = false.
+Proof. exact (fun Hwf => ignored_dir_hides_subtree_lemma gm fixed globals ign ch Hwf x p n r). Qed.
+
+Theorem par_ignored_dir_hides_subtree gm globals ign ch nth sched x p n r :
+  wf_tree (Dir ign ch) = true -> (1 <= nth)%nat ->
+  final (par_walk gm true nth globals ign ch sched) = true ->
+  In x (c_out (par_walk gm true nth globals ign ch sched)) -> x = p ++ n :: r ->
+  is_ignore (check gm true (RB globals ign ch (p ++ [n])) (p ++ [n])) = false.
+Proof.
+  exact (fun Hwf Hn => par_ignored_dir_hides_subtree_lemma gm true globals ign ch nth sched x p n r Hwf
+                         (local_of_fixed gm true ign ch Hwf eq_refl) Hn).
+Qed.
+
+(* ---- 5. .xvc and .git (COMMON_IGNORE_PATTERNS as regenerated into Gen/CommonIgnore.v) ------------------ *)
+(* Full statement: no reported path has a component .xvc or .git. *)
+Definition C09_never_enters_full : Prop :=
+  forall ign ch x p n r, wf_tree (Dir ign ch) = true ->
+    In x (spec_walk glob_matches true common_ignore_patterns ign ch) -> x = p ++ n :: r -> is_special n = false.
+
+(* refuted by a whitelist line: the root line "!.git" re-includes a/.git (whitelist patterns are consulted
+   before ignore patterns, and the built-in ones are ordinary ignore patterns) *)
+Theorem never_enters_xvc_git_refuted : ~ C09_never_enters_full.
+Proof.
+  intros H. assert (E := H ex3_ign ex3_ch [s_a; s_git] [s_a] s_git [] eq_refl).
+  assert (Hin : In [s_a; s_git] (spec_walk glob_matches true common_ignore_patterns ex3_ign ex3_ch)) by (vm_compute; tauto).
+  specialize (E Hin eq_refl). vm_compute in E. discriminate E.
+Qed.
+
+(* Proved outside the known class [whitelists_special] (boolean), for every matcher that finds a last
+   component ([matcher_finds_last_component], Walker/Special.v) -- this hypothesis about the matcher is
+   what keeps the theorem "_partial": for the transliterated fast-glob matcher it is evaluated on sample
+   paths below and tested by the glob correspondence, not proved for all paths. *)
+Theorem never_enters_xvc_git_partial gm fixed ign ch x p n r :
+  matcher_finds_last_component gm -> whitelists_special gm fixed ign ch = false ->
+  In x (spec_walk gm fixed common_ignore_patterns ign ch) -> x = p ++ n :: r -> is_special n = false.
+Proof. exact (never_enters_xvc_git_lemma gm fixed ign ch x p n r). Qed.
+
+Theorem par_never_enters_xvc_git_partial gm ign ch nth sched x p n r :
+  wf_tree (Dir ign ch) = true -> (1 <= nth)%nat ->
+  matcher_finds_last_component gm -> whitelists_special gm true ign ch = false ->
+  final (par_walk gm true nth common_ignore_patterns ign ch sched) = true ->
+  In x (c_out (par_walk gm true nth common_ignore_patterns ign ch sched)) -> x = p ++ n :: r -> is_special n = false.
+Proof.
+  exact (fun Hwf Hn => par_never_enters_xvc_git_lemma gm true ign ch nth sched x p n r Hwf
+                         (local_of_fixed gm true ign ch Hwf eq_refl) Hn).
+Qed.
+
+(* ---- 6. the queue discipline terminates ------------------------------------------------------------------------ *)
+(* [mu c] bounds the number of steps any schedule can take from c; a non-final configuration always has
+   an enabled thread; so every run that keeps scheduling enabled threads reaches a final configuration,
+   and a run that cannot be continued is final. *)
+Theorem par_walk_steps_bounded gm fixed c sched : (steps gm fixed c sched <= mu c)%nat.
+Proof. exact (steps_bounded gm fixed sched c). Qed.
+
+Theorem par_walk_progress gm fixed c : final c = false -> exists i, par_step gm fixed c i O <> None.
+Proof. exact (progress gm fixed c). Qed.
+
+Theorem par_walk_terminates gm fixed c :
+  exists sched, final (par_run gm fixed c sched) = true /\ (length sched <= mu c)%nat.
+Proof. exact (terminates_lemma gm fixed (mu c) c (le_n _)). Qed.
+
+Theorem par_walk_stuck_is_final gm fixed c : (forall i k, par_step gm fixed c i k = None) -> final c = true.
+Proof. exact (stuck_final gm fixed c). Qed.
+
+(* ---- the statements are pinned ------------------------------------------------------------------------------------ *)
+Check pattern_local : forall gm pat D ign q,
+  In pat (dir_patterns D ign) -> D <> [] -> forallb good_name D = true -> q <> [] -> forallb good_name q = true ->
+  pat_hits gm true (render q) pat = true -> exists r, q = D ++ r /\ r <> [].
+Check par_walk_deterministic : forall gm globals ign ch, wf_tree (Dir ign ch) = true ->
+  forall n sched, (1 <= n)%nat ->
+    let c := par_walk gm true n globals ign ch sched in
+    final c = true -> Permutation (c_out c) (spec_walk gm true globals ign ch) /\ NoDup (c_out c).
+Check par_walk_deterministic_outside_P17 : forall gm fixed globals ign ch, wf_tree (Dir ign ch) = true ->
+  known_P17 gm (Dir ign ch) = false ->
+  forall n sched, (1 <= n)%nat ->
+    let c := par_walk gm fixed n globals ign ch sched in
+    final c = true -> Permutation (c_out c) (spec_walk gm fixed globals ign ch) /\ NoDup (c_out c).
+Check serial_eq_spec : forall gm globals ign ch, wf_tree (Dir ign ch) = true ->
+  exists out, serial_walk gm true (S (dir_count (Dir ign ch))) globals ign ch = Some out /\
+              Permutation out (spec_walk gm true globals ign ch) /\ NoDup out.
+Check par_walk_terminates : forall gm fixed c,
+  exists sched, final (par_run gm fixed c sched) = true /\ (length sched <= mu c)%nat.
+
+(* ---- non-vacuity: the hypotheses are met by concrete, non-trivial trees ------------------------------------ *)
+(* ex1 (nested ignore file whose line names files of sibling directories) is well formed, lies in the
+   known class, and with the fix both schedules end in a final configuration with the reference result *)
+Example ex1_wf : wf_tree (Dir None ex1_ch) = true.
+Proof. vm_compute. reflexivity. Qed.
+Example ex1_known : known_P17 glob_matches (Dir None ex1_ch) = true.
+Proof. vm_compute. reflexivity. Qed.
+Example ex1_fixed_runs :
+  let c1 := par_walk glob_matches true 2 common_ignore_patterns None ex1_ch (sched_one 0) in
+  let c2 := par_walk glob_matches true 2 common_ignore_patterns None ex1_ch (sched_one 1) in
+  final c1 = true /\ final c2 = true /\ length (c_out c1) = 7%nat /\ length (c_out c2) = 7%nat /\
+  In [s_a; s_foo] (c_out c1) /\ In [s_a; s_foo] (c_out c2) /\ ~ In [s_b; s_foo] (c_out c1) /\
+  length (spec_walk glob_matches true common_ignore_patterns None ex1_ch) = 7%nat.
+Proof. vm_compute. repeat split; try tauto. intros H. repeat (destruct H as [H|H]; [discriminate|]). exact H. Qed.
+(* ex4: a nested ignore file with a line that hits only below its directory: outside the known class,
+   also for the code without the fix, and the nested line does hide something *)
+Example ex4_outside : wf_tree (Dir None ex4_ch) = true /\ known_P17 glob_matches (Dir None ex4_ch) = false /\
+  ~ In [s_b; s_foo] (spec_walk glob_matches false common_ignore_patterns None ex4_ch) /\
+  In [s_b] (spec_walk glob_matches false common_ignore_patterns None ex4_ch).
+Proof. vm_compute. repeat split; try tauto. intros H. repeat (destruct H as [H|H]; [discriminate|]). exact H. Qed.
+(* an ignored directory: .xvc of ex3 is ignored by its ancestors' rules, and nothing below it is reported *)
+Example ex3_ignored_dir :
+  is_ignore (check glob_matches true (RB common_ignore_patterns ex3_ign ex3_ch [s_xvc]) [s_xvc]) = true /\
+  forallb (fun x => match x with n :: _ => negb (bytes_eqb n s_xvc) | [] => true end)
+          (spec_walk glob_matches true common_ignore_patterns ex3_ign ex3_ch) = true.
+Proof. vm_compute. split; reflexivity. Qed.
+(* the matcher hypothesis of [never_enters_xvc_git_partial], evaluated: "**/.xvc" and "**/.git" match the
+   last component at depths 1..4 (also next to look-alike names) *)
+Example matcher_sample :
+  forallb (fun p => glob_matches (c_star :: c_star :: c_slash :: xvc_dir_name) (render (p ++ [xvc_dir_name]))
+                    && glob_matches (c_star :: c_star :: c_slash :: git_dir_name) (render (p ++ [git_dir_name])))
+          [[]; [s_a]; [s_a; s_b]; [s_a; s_b; s_c]; [s_xvc; s_a]; [[46; 120; 118; 99; 105]; s_git; s_a; s_foo]; [s_a_1_]] = true.
+Proof. vm_compute. reflexivity. Qed.
+(* known class of the second finding: ex3 is inside, ex1 outside (and ex1 reports no special name) *)
+Example ex3_whitelists : whitelists_special glob_matches true ex3_ign ex3_ch = true.
+Proof. vm_compute. reflexivity. Qed.
+Example ex1_no_whitelist : whitelists_special glob_matches true None ex1_ch = false /\ whitelists_special glob_matches false None ex1_ch = false.
+Proof. vm_compute. split; reflexivity. Qed.
+(* termination: the bound for ex1 with two threads *)
+Example ex1_mu : mu (par_init glob_matches true 2 common_ignore_patterns None ex1_ch) = 19%nat.
+Proof. vm_compute. reflexivity. Qed.
+
+Print Assumptions pattern_local.
+Print Assumptions pattern_local_refuted.
+Print Assumptions metachar_dir_refuted.
 Print Assumptions applies_only_below.
+Print Assumptions par_walk_deterministic.
+Print Assumptions par_walk_deterministic_outside_P17.
+Print Assumptions par_walk_nondeterministic_refuted.
+Print Assumptions C09_full_refuted_P17.
+Print Assumptions serial_eq_spec.
+Print Assumptions serial_eq_spec_outside_P17.
+Print Assumptions serial_ne_spec_refuted.
+Print Assumptions serial_eq_parallel.
+Print Assumptions ignored_dir_hides_subtree.
+Print Assumptions par_ignored_dir_hides_subtree.
+Print Assumptions never_enters_xvc_git_refuted.
+Print Assumptions never_enters_xvc_git_partial.
+Print Assumptions par_never_enters_xvc_git_partial.
+Print Assumptions par_walk_steps_bounded.
+Print Assumptions par_walk_progress.
+Print Assumptions par_walk_terminates.
+Print Assumptions par_walk_stuck_is_final.
